@@ -12,7 +12,7 @@ CFG = {
              "i32/u32 through every integer attribute; weightValue incl. -1; negative versionMinor and panose; attributes of another "
              "format; C13 rule violations in a format-2 file and through the robofab hint data; robofab hint data, classes, feature "
              "dictionaries with and without order lists (unknown and duplicate names), other lib keys, an existing features.fea; "
-             "random combinations; the robofab and all-attribute trees additionally through load_requested_data with six data requests "
+             "random combinations; every second case additionally as an ORDINARY legacy UFO (MetricsMachine groups with one-letter and longer stems and kerning referring to them, glyphs incl. one renamed in contents.plist only, layerinfo); the robofab and all-attribute trees additionally through load_requested_data with six data requests "
              "(default, lib off, features off, none, only lib, no layers).  Feature text without an order list and with >= 2 blocks is compared up to the order of the "
              "blocks (tag `unordered`).  non-trivial = at least one legacy attribute or a lib.plist; distinct by input tokens"),
     "exhaustive": {"quick": True, "thorough": True},
